@@ -271,4 +271,57 @@ def wrapperRewraps (wrapper : String) : Bool :=
 def wrapperSolution {X Geo : Type} (wrapper : String) (x0geom : Option Geo) (x : X) : Sol X Geo :=
   if wrapperRewraps wrapper then rewrap x0geom x else .plain x
 
+/-! ## the inverse certificate of the PCGLS driver op, on the arrays the model runs on -/
+section Cert
+variable {K : Type} [Add K] [Mul K] [Zero K] [One K] [DecidableEq K]
+
+/-- `(Q @ P)[i][j]` -/
+def matMulEntry {n : Nat} (Q P : Mat K n n) (i j : Fin n) : K :=
+  (List.ofFn (fun k : Fin n => Q[i][k] * P[k][j])).sum
+
+/-- `Q @ P == I`, entry by entry -/
+def isLeftInverse {n : Nat} (Q P : Mat K n n) : Bool :=
+  decide (∀ i j : Fin n, matMulEntry Q P i j = if i = j then 1 else 0)
+
+/-- the certificate the driver checks before it runs `pcgls` with `pinv = mulVec Pim`: `Pim @ Pm == I` and `Pm @ Pim == I` -/
+def isInverseCert {n : Nat} (Pm Pim : Mat K n n) : Bool := isLeftInverse Pim Pm && isLeftInverse Pm Pim
+
+end Cert
+
+/-! ## `maxit` re-assigned on an existing solver object (`solver.maxit = q`): no `int()` is applied -/
+
+/-- passes `while (k < maxit)` (counter from 0) allows when `maxit` is the raw Python number: the number of naturals
+    below it — `⌈q⌉` for `q > 0`, `0` for `q ≤ 0`, `nan` (`k < nan` is `False`) and `-inf`; unbounded (`none`) for `+inf` -/
+def pyCeil (q : Rat) : Int := -((-q).floor)
+
+def budgetAssigned : PyNum → Option Nat
+  | .fin q => some (pyCeil q).toNat
+  | .nan => some 0
+  | .negInf => some 0
+  | .posInf => none
+
+/-- FISTA's `k >= maxit` with the raw number: `nan` never stops the loop (`none`), `-inf` stops after the first pass -/
+def budgetAssignedFista : PyNum → Option Nat
+  | .fin q => some (pyCeil q).toNat
+  | .nan => none
+  | .negInf => some 0
+  | .posInf => none
+
+section Assigned
+variable {K V W : Type} [Add K] [Sub K] [Mul K] [Div K] [Neg K] [Zero K] [One K] [LT K] [LE K]
+  [DecidableEq K] [DecidableLT K] [DecidableLE K] [NatCast K]
+variable (oV : VOps K V) (oW : VOps K W) (fwd : V → W) (adj : W → V) (b : W)
+
+/-- `s = CGLS(A, b, x0, …); s.maxit = q; s.solve()`; `none` = the budget is unbounded (only the flag can stop the loop) -/
+def cglsAssigned (shift tol eps : K) (x0 : V) (maxit : PyNum) : Option (V × Nat) :=
+  (budgetAssigned maxit).map fun n =>
+    let st := cgls oV oW fwd adj b shift tol eps x0 n
+    (st.x, st.k)
+
+/-- `s = FISTA(…); s.maxit = q; s.solve()` -/
+def fistaAssigned (prox : V → K → V) (stepsize abstol : K) (adaptive : Bool) (x0 : V) (maxit : PyNum) : Option (V × Nat) :=
+  (budgetAssignedFista maxit).map fun n => fista oV oW fwd adj b prox stepsize abstol n adaptive x0
+
+end Assigned
+
 end CuqiVerif.C16
